@@ -38,6 +38,8 @@ pub struct MArch {
     pub removal_positions: BTreeSet<usize>,
     /// set once a documented overflow panic was observed: state after it is C10's business
     pub poisoned: bool,
+    /// last generation issued per slot (labels only: detects a wraparound)
+    pub last_gen: std::collections::BTreeMap<u32, u32>,
 }
 
 /// A handle ever issued by this world lineage.
